@@ -933,6 +933,9 @@ func (ts *Terms) helperInline(x *ssa.Call, fr *Frame, idx int) *Term {
 			goto strict // a helper that also writes keeps the strict test below
 		}
 	}
+	if (f.Signature.Recv() == nil || !isKeeperStruct(f.Signature.Recv().Type())) && passesThroughRead(f, idx) {
+		goto inline // load(...) hands back what the one getter it calls returned: that getter's term
+	}
 	for _, p := range ts.cx.primsOf(f) {
 		k := p.Kind
 		if strings.HasPrefix(k, "store.get") || strings.HasPrefix(k, "store.has") || strings.HasPrefix(k, "store.iter") || strings.HasPrefix(k, "store.riter") {
@@ -1816,4 +1819,36 @@ func putUint64Into(ms ssa.Value, n int) ssa.Value {
 		}
 	}
 	return val
+}
+
+// passesThroughRead: every non-failure return of the (read-only) helper hands back, as
+// result idx, result #idx' of one and the same call made in the helper - a getter of a
+// dependency or of the keeper - untouched.
+func passesThroughRead(f *ssa.Function, idx int) bool {
+	var one ssa.Value
+	n := 0
+	for _, r := range returnsOf(f) {
+		if isFailureReturn(r) || idx >= len(r.Results) {
+			continue
+		}
+		v := r.Results[idx]
+		switch x := v.(type) {
+		case *ssa.Extract:
+			if _, ok := x.Tuple.(*ssa.Call); !ok {
+				return false
+			}
+		case *ssa.Call:
+			if x.Common().IsInvoke() == false && x.Common().StaticCallee() == nil {
+				return false
+			}
+		default:
+			return false
+		}
+		if one != nil && one != v {
+			return false
+		}
+		one = v
+		n++
+	}
+	return n > 0
 }
